@@ -281,6 +281,15 @@ pub fn sites(_tier: Tier) -> Vec<Site> {
         sites.push(crate::crossthread::site("C14", "cross-thread-decodes", "track decodes", corpus,
             |b: &Vec<u8>| Track::read_le(&mut Cursor::new(&b[..])).map(|t| format!("{t:?} {} {:?}", t, wire(&t))).map_err(|_| ())));
     }
+    // ... nor over longer histories: every sequence of up to 6 decodes over four codes and a non-code, on a fresh thread
+    {
+        let want = ["So4r", "We2", "As5y", "Bl1"];
+        let mut corpus: Vec<(String, Vec<u8>)> = vec![];
+        for (code, t) in tracks.iter() { if want.contains(&&**code) { if let Some(w) = wire(t) { corpus.push((format!("decode {code}"), w.to_vec())); } } }
+        corpus.push(("decode ZZ9 (no track)".into(), b"ZZ9\0\0\0".to_vec()));
+        sites.push(crate::crossthread::history_site("C14", "decode-histories", "track decodes", corpus,
+            |b: &Vec<u8>| Track::read_le(&mut Cursor::new(&b[..])).map(|t| format!("{t:?} {:?}", wire(&t))).map_err(|_| ())));
+    }
     // the 6 bytes delivered in pieces: same track (or the same refusal) as from a plain cursor
     {
         let mut forms: Vec<Vec<u8>> = tracks.iter().filter_map(|(_, t)| wire(t)).collect();
